@@ -246,6 +246,19 @@ class Exec(Engine):
                 q.pc.append(z3.And(0 <= r, r < sq.n, z3.Select(sq.arr, r) == v.t, s.forall(0, r, lambda k: z3.Select(sq.arr, k) != v.t)))
                 yield SInt(r), q
             return
+        if isinstance(o, SSet) and attr == "issubset" and len(av) == 1 and isinstance(av[0], SSet):
+            b = av[0]
+            if o.member is None:
+                yield SBool(True), p
+            elif b.member is None:
+                x = fresh("sx", sort_of(o.ek))
+                yield SBool(z3.Not(z3.Exists([x], z3.Select(o.member, x)))), p
+            else:
+                if o.ek != b.ek:
+                    raise OutOfSubset("issubset between sets of different element kinds")
+                x = fresh("sx", sort_of(o.ek))
+                yield SBool(z3.ForAll([x], z3.Implies(z3.Select(o.member, x), z3.Select(b.member, x)))), p
+            return
         if isinstance(o, SSet) and attr == "pop" and not av:
             if o.member is None:
                 s.may_raise("KeyError", z3.BoolVal(False), p, f"pop:line{n.lineno}", n.lineno)
@@ -384,9 +397,10 @@ class Exec(Engine):
                 if v.member is None:
                     p1.pc.append(c == 0)
                 else:
-                    x = fresh("cx", sort_of(v.ek))
+                    x, y = fresh("cx", sort_of(v.ek)), fresh("cy", sort_of(v.ek))
                     p1.pc.append((c == 0) == z3.Not(z3.Exists([x], z3.Select(v.member, x))))
-                s.abstracted.add("len() of a set: a non-negative integer that is 0 exactly for the empty set (no further cardinality reasoning)")
+                    p1.pc.append((c == 1) == z3.Exists([x], z3.And(z3.Select(v.member, x), z3.ForAll([y], z3.Implies(z3.Select(v.member, y), y == x)))))
+                s.abstracted.add("len() of a set: a non-negative integer that is 0 exactly for the empty set and 1 exactly for a singleton (no further cardinality reasoning)")
                 yield SInt(c), p1
             elif isinstance(v, SRec) and v.cls == "val":
                 ln = z3.Int(f"len_rec[{id(v)}]")
